@@ -189,7 +189,7 @@ impl<'o, 'c> XmlFormatter<'o, 'c> {
                 NodeValue::CodeBlock(ref ncb) => {
                     if !ncb.info.is_empty() {
                         self.output.write_all(b" info=\"")?;
-                        self.output.write_all(ncb.info.as_bytes())?;
+                        self.escape(ncb.info.as_bytes())?;
                         self.output.write_all(b"\"")?;
 
                         if ncb.info.eq("math") {
